@@ -260,7 +260,7 @@ def run(ctx):
     ctx.proofs()
     hx = ctx.go_build("c18")
     if ctx.quick():
-        nvals, ndocs, coq_docs, coq_vals = 1500, 8000, 1400, 350
+        nvals, ndocs, coq_docs, coq_vals = 1500, 8000, 1000, 250
     else:
         nvals, ndocs, coq_docs, coq_vals = 40000, 400000, 8000, 2500
     cmd = [hx, "-seed", str(ctx.seed), "-nvals", str(nvals), "-ndocs", str(ndocs), "-deep", "-deepmax", "5000" if ctx.quick() else "100000"]
